@@ -297,6 +297,23 @@ def inlined(fa, body):
                 break
         if done:
             break
+    # closures handed to for_each / fold become explicit loops (try_for_each: see desugar_adaptor; left alone because its
+    # early exit is not expressible without inventing control flow)
+    for _ in range(8):
+        done = True
+        for i, t in cfg.calls(cur):
+            decl = cfg.callee_decl(t) or ""
+            if decl.endswith(("Iterator::for_each", "Iterator::fold")):
+                nd = desugar_adaptor(fa, cur.d, i, cur)
+                if nd is not None:
+                    cb, _agg = _closure_of(fa, cur, t["a"][-1])
+                    cur = Body(nd, body.crate)
+                    if cb is not None and cb.path not in helpers:
+                        helpers.append(cb.path)
+                    done = False
+                    break
+        if done:
+            break
     cache[body.path] = cur
     if helpers:
         fa._inlined_from[body.path] = helpers
@@ -338,3 +355,199 @@ def force_inline(fa, body, names, depth=3):
         if done:
             break
     return cur
+
+
+# ---------------------------------------------------------------- iterator adaptors with a closure -> explicit loop
+#
+# `xs.iter().for_each(|x| body)`, `it.try_for_each(|x| body)` and `it.fold(init, |acc, x| body)` are loops.  Rules that
+# look for "the loop that emits every element" / "the accumulator that sums the sizes" should not care which spelling the
+# code uses, so the inlined view rewrites such a call into the loop it stands for: `loop { match it.next() { Some(x) =>
+# <closure body>, None => break } }`, with the closure's captured variables replaced by what was captured.
+
+LOOP_ADAPTORS = ("Iterator::for_each", "Iterator::try_for_each", "Iterator::fold")
+
+
+def _closure_of(fa, body, op):
+    pl = cfg.op_place(op)
+    if not pl:
+        return None, None
+    r0 = cfg.origin(body, pl)[0]
+    for d in cfg.defs(body).get(r0, []):
+        if d[0] == "assign" and d[2]["k"] == "agg" and d[2].get("what") == "closure":
+            return fa.body(d[2]["def"]), d[2]
+    return None, None
+
+
+def desugar_adaptor(fa, f_d, bb, body_obj):
+    """New body dict with the adaptor call at `bb` replaced by an explicit loop, or None when the shape is not handled."""
+    call = f_d["blocks"][bb]["term"]
+    decl = cfg.callee_decl(call) or ""
+    kind = next((k for k in LOOP_ADAPTORS if decl.endswith(k)), None)
+    if kind is None or call.get("t") is None or len(call["d"]) != 1:
+        return None
+    cb, agg = _closure_of(fa, body_obj, call["a"][-1])
+    if cb is None or cb.d.get("coroutine") or len(cb.blocks) > 200:
+        return None
+    want_args = 3 if kind.endswith("fold") else 2
+    if cb.d["argc"] != want_args or len(call["a"]) != want_args:
+        return None
+    caps = []
+    for o in agg["ops"]:
+        pl = cfg.op_place(o)
+        if pl is None:
+            return None
+        caps.append(pl)
+    it_pl = cfg.op_place(call["a"][0])
+    if it_pl is None or len(it_pl) != 1:
+        return None
+    blocks = [dict(b) for b in f_d["blocks"]]
+    locals_ = list(f_d["locals"])
+    ln = call.get("ln", 0)
+    L_it, L_ref, L_opt, L_dis, L_acc = (len(locals_) + k for k in range(5))
+    it_ty = locals_[it_pl[0]]["ty"]
+    locals_ += [{"ty": it_ty}, {"ty": "&mut " + it_ty}, {"ty": "std::option::Option<_>"}, {"ty": "isize"},
+                {"ty": locals_[call["d"][0]]["ty"]}]
+    off = len(locals_)
+    for i, l in enumerate(cb.locals):
+        l2 = dict(l)
+        if i <= cb.d["argc"]:
+            l2.pop("n", None)
+        locals_.append(l2)
+    H, S, UNR, ENTRY, AFTER, EXIT = (len(blocks) + k for k in range(6))
+    cboff = len(blocks) + 6
+
+    def cpl(pl):
+        """closure place -> caller place (captures substituted)"""
+        if pl[0] == 1:
+            rest = list(pl[1:])
+            if rest and rest[0] == "*":
+                rest = rest[1:]
+            if not rest or not (isinstance(rest[0], str) and rest[0][:1] == "." and rest[0][1:].isdigit()):
+                raise ValueError("closure environment used as a whole")
+            k = int(rest[0][1:])
+            if k >= len(caps):
+                raise ValueError("capture index")
+            return list(caps[k]) + rest[1:]
+        out = [pl[0] + off]
+        for e in pl[1:]:
+            if isinstance(e, str) and e.startswith("[_") and e.endswith("]") and e[2:-1].isdigit():
+                out.append("[_%d]" % (int(e[2:-1]) + off))
+            else:
+                out.append(e)
+        return out
+
+    def cop(op):
+        if isinstance(op, dict) and "cp" in op:
+            return {"cp": cpl(op["cp"])}
+        if isinstance(op, dict) and "mv" in op:
+            return {"mv": cpl(op["mv"])}
+        return op
+
+    def crv(r):
+        r = dict(r)
+        for k in ("o", "a", "b"):
+            if k in r:
+                r[k] = cop(r[k])
+        if "ops" in r:
+            r["ops"] = [cop(o) for o in r["ops"]]
+        if "p" in r:
+            r["p"] = cpl(r["p"])
+        return r
+
+    def cterm(t):
+        t = dict(t)
+        k = t["k"]
+        if k == "return":
+            return {"k": "goto", "t": AFTER, "ln": t.get("ln", ln)}
+        if k == "call":
+            t["f"] = cop(t["f"])
+            t["a"] = [cop(a) for a in t["a"]]
+            t["d"] = cpl(t["d"])
+            t["t"] = None if t["t"] is None else t["t"] + cboff
+            t["u"] = None if t.get("u") is None else t["u"] + cboff
+        elif k == "switch":
+            t["d"] = cop(t["d"])
+            t["ts"] = [[v, tb + cboff] for v, tb in t["ts"]]
+            t["else"] = t["else"] + cboff
+        elif k == "drop":
+            t["p"] = cpl(t["p"])
+            t["t"] = t["t"] + cboff
+            t["u"] = None if t.get("u") is None else t["u"] + cboff
+        elif k == "assert":
+            t["c"] = cop(t["c"])
+            for kk in ("len", "idx"):
+                if kk in t:
+                    t[kk] = cop(t[kk])
+            t["t"] = t["t"] + cboff
+            t["u"] = None if t.get("u") is None else t["u"] + cboff
+        elif k in ("goto", "falseunwind"):
+            t["t"] = t["t"] + cboff
+            if "u" in t:
+                t["u"] = None if t.get("u") is None else t["u"] + cboff
+        elif k == "falseedge":
+            t["t"] = t["t"] + cboff
+            t["imag"] = t["imag"] + cboff
+        elif k in ("yield", "tailcall", "asm"):
+            raise ValueError("unsupported terminator in closure")
+        return t
+    try:
+        cblocks = []
+        for hb in cb.blocks:
+            nb = {"s": [], "term": cterm(hb["term"])}
+            if hb.get("cleanup"):
+                nb["cleanup"] = True
+            for st in hb["s"]:
+                s2 = dict(st)
+                if "l" in s2:
+                    s2["l"] = cpl(s2["l"])
+                    s2["r"] = crv(s2["r"])
+                if "setdiscr" in s2:
+                    s2["setdiscr"] = cpl(s2["setdiscr"])
+                nb["s"].append(s2)
+            cblocks.append(nb)
+    except ValueError:
+        return None
+    fold = kind.endswith("fold")
+    tryf = kind.endswith("try_for_each")
+    dest = list(call["d"])
+    pre = list(blocks[bb]["s"]) + [{"l": [L_it], "r": {"k": "use", "o": call["a"][0]}, "ln": ln, "x": "desugar:adaptor"}]
+    if fold:
+        pre.append({"l": [L_acc], "r": {"k": "use", "o": call["a"][1]}, "ln": ln, "x": "desugar:adaptor"})
+    blocks[bb]["s"] = pre
+    blocks[bb]["term"] = {"k": "goto", "t": H, "ln": ln, "x": "desugar:%s" % kind}
+    nxt = {"k": {"ty": "fn", "fn": "std::iter::Iterator::next", "fnfull": "<%s as std::iter::Iterator>::next" % it_ty}}
+    blocks.append({"s": [{"l": [L_ref], "r": {"k": "ref", "mut": True, "p": [L_it]}, "ln": ln}],
+                   "term": {"k": "call", "f": nxt, "a": [{"mv": [L_ref]}], "d": [L_opt], "t": S, "u": None, "ln": ln, "x": "desugar:ForLoop"}})
+    blocks.append({"s": [{"l": [L_dis], "r": {"k": "discr", "p": [L_opt], "enum": "std::option::Option",
+                                              "variants": [[0, "None"], [1, "Some"]]}, "ln": ln, "x": "desugar:ForLoop"}],
+                   "term": {"k": "switch", "d": {"mv": [L_dis]}, "ts": [[0, EXIT], [1, ENTRY]], "else": UNR, "ln": ln, "x": "desugar:ForLoop"}})
+    blocks.append({"s": [], "term": {"k": "unreachable", "ln": ln}})
+    bind = [{"l": [off + (3 if fold else 2)], "r": {"k": "use", "o": {"mv": [L_opt, "as Some", ".0"]}}, "ln": ln, "x": "desugar:adaptor"}]
+    if fold:
+        bind.append({"l": [off + 2], "r": {"k": "use", "o": {"mv": [L_acc]}}, "ln": ln, "x": "desugar:adaptor"})
+    blocks.append({"s": bind, "term": {"k": "goto", "t": cboff, "ln": ln}})
+    if fold:
+        blocks.append({"s": [{"l": [L_acc], "r": {"k": "use", "o": {"mv": [off]}}, "ln": ln, "x": "desugar:adaptor"}],
+                       "term": {"k": "goto", "t": H, "ln": ln}})
+        blocks.append({"s": [{"l": dest, "r": {"k": "use", "o": {"mv": [L_acc]}}, "ln": ln, "x": "desugar:adaptor"}],
+                       "term": {"k": "goto", "t": call["t"], "ln": ln}})
+    elif tryf:
+        # the closure's value decides: a residual (Err / Break / None) leaves the loop and becomes the call's result
+        L_br = off            # closure return place
+        blocks.append({"s": [{"l": dest, "r": {"k": "use", "o": {"cp": [L_br]}}, "ln": ln, "x": "desugar:adaptor"}],
+                       "term": {"k": "goto", "t": H, "ln": ln, "x": "desugar:try_for_each(continue|break)"}})
+        # AFTER both continues the loop and may leave it: model the early exit as a second successor through a switch on an
+        # unknown flag is not expressible here; the result of a non-short-circuited run is written at EXIT
+        vty = locals_[dest[0]]["ty"]
+        okv = {"k": "agg", "what": "adt", "adt": "std::result::Result" if "Result" in vty.split("<")[0] else "std::option::Option",
+               "variant": "Ok" if "Result" in vty.split("<")[0] else "Some", "fields": ["0"], "ops": [{"k": {"ty": "()", "c": "()"}}]}
+        blocks.append({"s": [{"l": dest, "r": okv, "ln": ln, "x": "desugar:adaptor"}], "term": {"k": "goto", "t": call["t"], "ln": ln}})
+    else:
+        blocks.append({"s": [], "term": {"k": "goto", "t": H, "ln": ln}})
+        blocks.append({"s": [{"l": dest, "r": {"k": "use", "o": {"k": {"ty": "()", "c": "()"}}}, "ln": ln, "x": "desugar:adaptor"}],
+                       "term": {"k": "goto", "t": call["t"], "ln": ln}})
+    blocks += cblocks
+    d = dict(f_d)
+    d["blocks"] = blocks
+    d["locals"] = locals_
+    return d
